@@ -594,6 +594,14 @@ func init() {
 				// so post-processing has something to move
 				tmpl = 1 + pgen.NTemplates + (pi/3-1)%pgen.NFileTemplates
 			}
+			dynMap := pi%5 == 1
+			if dynMap {
+				// skeleton 4: a stage mapped over a run-time sized collection, its
+				// merged outputs consumed by a second mapped stage; the forks other
+				// than the first are slow, and mrp is interrupted when the first
+				// fork's job has ended (the forks exist only in memory until then)
+				tmpl = 5
+			}
 			big := pi%2 == 1
 			if ps := replay.Case.ProgramSeed; ps != 0 {
 				if d := ps - (c.Seed*7 + int64(pi)*104729); d < 0 || d%7919 != 0 || d/7919 >= 30 {
@@ -608,6 +616,12 @@ func init() {
 					}
 					if tmpl > pgen.NTemplates && len(s.LenChoices) == 0 {
 						s.LenChoices = []int{2, 3} // file skeletons: several forks each
+					}
+					if dynMap {
+						s.LenChoices = []int{3}
+						for _, f := range []string{"fork1", "fork2", "fork_b", "fork_c", "fork_d"} {
+							s.Rules = append(s.Rules, pgen.Rule{JobPrefix: "TOP/M1/" + f + "/", DelayBeforeMs: 1500})
+						}
 					}
 					if pi%4 == 1 {
 						// decimal-width boundary: every split defines exactly 10 chunks
@@ -688,6 +702,16 @@ func init() {
 						addSpec(crashSpec{Point: t.Name, Hit: t.Hit, Signal: []string{"KILL", "TERM"}[(k+pi)%2]})
 					}
 					c.Count("post_processing_window_points", int64(len(w)))
+				}
+			}
+			if dynMap {
+				for _, j := range fp.jobs {
+					if strings.HasPrefix(j, "TOP/M1/") && !strings.Contains(j, "/fork1/") && !strings.Contains(j, "/fork2/") &&
+						!strings.Contains(j, "/fork_b/") && !strings.Contains(j, "/fork_c/") && !strings.Contains(j, "/fork_d/") {
+						addSpec(crashSpec{Job: j, JobAt: "end", Signal: "KILL"})
+						addSpec(crashSpec{Job: j, JobAt: "end", Signal: "TERM"})
+						addSpec(crashSpec{Job: j, JobAt: "complete", Signal: "KILL"})
+					}
 				}
 			}
 			// the job monitor signals mrp just before / just after it records
